@@ -211,7 +211,7 @@ def run_shard(spec, workdir):
             if gen.is_nontrivial(recipe, np_vals):
                 res["nontrivial"].append(gen.rhash([recipe, v]))
         shutil.rmtree(wd, ignore_errors=True)
-        if k < 1 and spec.get("shard", 0) == 0:
+        if not res["samples"] and spec.get("shard", 0) == 0:
             res["samples"].append({"recipe": recipe, "variants": variants})
     # executor matrix on memory-tight rechunks (rectilinear intermediates): the executor named in the Spec must not
     # change acceptance or values
